@@ -7,94 +7,437 @@ package main
 
 import (
 	"fmt"
+	"go/constant"
+	"go/token"
 	"go/types"
 
 	"golang.org/x/tools/go/ssa"
 )
 
-// gdAddSummaryFacts: when a dominating branch tests a boolean result of a pure
-// module function, add the integer facts that result implies in the callee
-// (evaluated in the callee frame of that call: parameters = arguments, memory
-// as of the call).
-func gdAddSummaryFacts(s *gdSolver, b *ssa.BasicBlock) {
-	for _, f := range gdDomFacts(b) {
-		var call *ssa.Call
-		k := 0
-		switch c := f.cond.(type) {
-		case *ssa.Extract:
-			call, _ = c.Tuple.(*ssa.Call)
-			k = c.Index
-		case *ssa.Call:
-			call = c
+// gdWay: one way a call of a function can return: through the Return `ret`
+// and — when a result of `ret` is a phi of the returning block — through the
+// predecessor edge `edge` of that block. The branch decisions `facts()` hold (in
+// the callee frame) whenever the call returns this way.
+type gdWay struct {
+	ret  *ssa.Return
+	blk  *ssa.BasicBlock
+	edge int // -1: no edge selection
+}
+
+func gdWaysOf(fn *ssa.Function) []gdWay {
+	var out []gdWay
+	for _, b := range fn.Blocks {
+		if len(b.Instrs) == 0 {
+			continue
 		}
-		if call == nil {
+		r, ok := b.Instrs[len(b.Instrs)-1].(*ssa.Return)
+		if !ok {
+			continue
+		}
+		split := false
+		for _, rv := range r.Results {
+			if phi, ok := rv.(*ssa.Phi); ok && phi.Block() == b {
+				split = true
+			}
+		}
+		if split && len(b.Preds) > 0 {
+			for i, p := range b.Preds {
+				out = append(out, gdWay{ret: r, blk: p, edge: i})
+			}
+		} else {
+			out = append(out, gdWay{ret: r, blk: b, edge: -1})
+		}
+	}
+	return out
+}
+
+// result: the value of result k when the call returns this way (nil = no such result).
+func (w gdWay) result(k int) ssa.Value {
+	if k < 0 || k >= len(w.ret.Results) {
+		return nil
+	}
+	rv := w.ret.Results[k]
+	if phi, ok := rv.(*ssa.Phi); ok && w.edge >= 0 && phi.Block() == w.ret.Block() {
+		return phi.Edges[w.edge]
+	}
+	return rv
+}
+
+func (w gdWay) facts() []gdFact {
+	if w.edge >= 0 {
+		return gdEdgeFacts(w.blk, w.ret.Block())
+	}
+	return gdDomFacts(w.blk)
+}
+
+// gdEdgeFacts: the branch decisions that hold whenever control passes from
+// block p to its successor b: those dominating p, and p's own decision when p
+// ends in an If whose two successors differ.
+func gdEdgeFacts(p, b *ssa.BasicBlock) []gdFact {
+	out := gdDomFacts(p)
+	if len(p.Instrs) > 0 && len(p.Succs) == 2 && p.Succs[0] != p.Succs[1] {
+		if iff, ok := p.Instrs[len(p.Instrs)-1].(*ssa.If); ok && (b == p.Succs[0] || b == p.Succs[1]) {
+			out = append(out, gdNormFact(iff.Cond, b == p.Succs[0], iff))
+		}
+	}
+	return out
+}
+
+// gdCallResult: v is result k of a static call.
+func gdCallResult(v ssa.Value) (*ssa.Call, int) {
+	switch x := v.(type) {
+	case *ssa.Extract:
+		if c, ok := x.Tuple.(*ssa.Call); ok {
+			return c, x.Index
+		}
+	case *ssa.Call:
+		if _, isTuple := x.Type().(*types.Tuple); !isTuple {
+			return x, 0
+		}
+	}
+	return nil, 0
+}
+
+// gdResCons: what a branch decision says about result k of a call: a boolean
+// result has the value `truth`, or (isNil) a nil-able result is non-nil
+// (truth) / nil (!truth).
+type gdResCons struct {
+	k     int
+	isNil bool
+	truth bool
+}
+
+// gdResultConstraints: the constraints the branch decisions dominating b put on
+// the results of the calls they test.
+func gdResultConstraints(b *ssa.BasicBlock) ([]*ssa.Call, map[*ssa.Call][]gdResCons) {
+	var order []*ssa.Call
+	m := map[*ssa.Call][]gdResCons{}
+	add := func(call *ssa.Call, c gdResCons) {
+		if _, ok := m[call]; !ok {
+			order = append(order, call)
+		}
+		m[call] = append(m[call], c)
+	}
+	for _, f := range gdDomFacts(b) {
+		if w, nonNil := gdNilCompare(f.cond, f.truth); w != nil {
+			if call, k := gdCallResult(w); call != nil {
+				add(call, gdResCons{k: k, isNil: true, truth: nonNil})
+			}
 			continue
 		}
 		if bt, ok := f.cond.Type().Underlying().(*types.Basic); !ok || bt.Kind() != types.Bool {
 			continue
 		}
-		ctx := s.ctxFor(call)
-		if ctx == nil {
+		if call, k := gdCallResult(f.cond); call != nil {
+			add(call, gdResCons{k: k, truth: f.truth})
+		}
+	}
+	return order, m
+}
+
+func gdBoolConst(v ssa.Value) (bool, bool) {
+	if c, ok := v.(*ssa.Const); ok && c.Value != nil && c.Value.Kind() == constant.Bool {
+		return constant.BoolVal(c.Value), true
+	}
+	return false, false
+}
+
+// admits: returning this way is compatible with the constraint.
+func (w gdWay) admits(c gdResCons) bool {
+	v := w.result(c.k)
+	if v == nil {
+		return false
+	}
+	if c.isNil {
+		if c.truth {
+			return !gdIsNilConst(v)
+		}
+		return !gdNonNil(v, 0)
+	}
+	if cv, ok := gdBoolConst(v); ok {
+		return cv == c.truth
+	}
+	return true
+}
+
+// gdAdmittedWays: the ways of fn compatible with every constraint.
+func gdAdmittedWays(fn *ssa.Function, cons []gdResCons) []gdWay {
+	var out []gdWay
+	for _, w := range gdWaysOf(fn) {
+		ok := true
+		for _, c := range cons {
+			if !w.admits(c) {
+				ok = false
+				break
+			}
+		}
+		if ok {
+			out = append(out, w)
+		}
+	}
+	return out
+}
+
+// gdFrameStable: v (a value of a callee) is an expression over the callee's
+// parameters and constants only — it reads no memory and calls nothing, so it
+// has the same value whatever else the callee does (used for callees that are
+// not pure).
+func gdFrameStable(v ssa.Value, depth int) bool {
+	if depth > 12 {
+		return false
+	}
+	switch x := v.(type) {
+	case *ssa.Const, *ssa.Parameter:
+		return true
+	case *ssa.BinOp:
+		return gdFrameStable(x.X, depth+1) && gdFrameStable(x.Y, depth+1)
+	case *ssa.UnOp:
+		if x.Op == token.MUL {
+			// a spilled parameter (`t0 = local T (p); *t0 = p`) or a field of it
+			switch a := x.X.(type) {
+			case *ssa.Alloc:
+				return gdSpillOf(a) != nil
+			case *ssa.FieldAddr:
+				if al, ok := a.X.(*ssa.Alloc); ok {
+					return gdSpillOf(al) != nil
+				}
+			}
+			return false
+		}
+		if x.Op == token.ARROW {
+			return false
+		}
+		return gdFrameStable(x.X, depth+1)
+	case *ssa.Convert:
+		return gdFrameStable(x.X, depth+1)
+	case *ssa.ChangeType:
+		return gdFrameStable(x.X, depth+1)
+	case *ssa.Field:
+		return gdFrameStable(x.X, depth+1)
+	case *ssa.TypeAssert:
+		return !x.CommaOk && gdFrameStable(x.X, depth+1)
+	case *ssa.Call:
+		if b, ok := x.Call.Value.(*ssa.Builtin); ok && (b.Name() == "len" || b.Name() == "cap") && len(x.Call.Args) == 1 {
+			return gdFrameStable(x.Call.Args[0], depth+1)
+		}
+	}
+	return false
+}
+
+func gdFrameStableCond(cond ssa.Value) bool {
+	for {
+		if u, ok := cond.(*ssa.UnOp); ok && u.Op == token.NOT {
+			cond = u.X
 			continue
 		}
-		gdImpliedByResult(s, ctx, k, f.truth)
+		break
+	}
+	b, ok := cond.(*ssa.BinOp)
+	return ok && gdFrameStable(b.X, 0) && gdFrameStable(b.Y, 0)
+}
+
+// gdAddSummaryFacts: when the branches dominating b test results of a call of
+// a module function (a boolean result, or a nil-able result against nil — the
+// `if !inBounds(i, n)` / `if err := check(x); err != nil { return err }` forms
+// of a guard) and exactly one way of returning is compatible with what they
+// saw, add the integer facts that hold on that way, evaluated in the callee
+// frame of that call (parameters = arguments, memory as of the call), and tie
+// the call's other results to the values returned that way. For a callee that
+// is not pure only facts over its parameters are taken.
+func gdAddSummaryFacts(s *gdSolver, b *ssa.BasicBlock) {
+	calls, cons := gdResultConstraints(b)
+	for _, call := range calls {
+		gdAddCallFacts(s, call, cons[call])
 	}
 }
 
-// gdImpliedByResult adds the facts implied by "result k of ctx.callee == truth"
-// when exactly one (return, phi edge) can produce that value.
-func gdImpliedByResult(s *gdSolver, ctx *gdCallCtx, k int, truth bool) {
-	type way struct {
-		blk   *ssa.BasicBlock // block whose dominating facts hold
-		cond  ssa.Value       // additional condition (may be nil)
-		truth bool
+// gdAddCallFacts: the facts implied by the constraints cons on the results of
+// one call (see gdAddSummaryFacts).
+func gdAddCallFacts(s *gdSolver, call *ssa.Call, cons []gdResCons) {
+	gdAddCallFactsIn(s, call, cons, nil, 0)
+}
+
+// gdAddCallFactsIn: the same for a call made in frame outer (a helper that
+// tests the boolean result of a further pure helper).
+func gdAddCallFactsIn(s *gdSolver, call *ssa.Call, cons []gdResCons, outer *gdCallCtx, depth int) {
+	ctx := s.frameForIn(call, outer)
+	if ctx == nil {
+		return
 	}
-	var ways []way
-	isConst := func(v ssa.Value) (bool, bool) {
-		if c, ok := v.(*ssa.Const); ok && c.Value != nil {
-			return c.Value.String() == "true", true
-		}
-		return false, false
-	}
-	for _, blk := range ctx.callee.Blocks {
-		if len(blk.Instrs) == 0 {
-			continue
-		}
-		r, ok := blk.Instrs[len(blk.Instrs)-1].(*ssa.Return)
-		if !ok || k >= len(r.Results) {
-			continue
-		}
-		rv := r.Results[k]
-		if cv, ok := isConst(rv); ok {
-			if cv == truth {
-				ways = append(ways, way{blk: blk})
-			}
-			continue
-		}
-		if phi, ok := rv.(*ssa.Phi); ok && phi.Block() == blk {
-			for i, e := range phi.Edges {
-				if cv, ok := isConst(e); ok {
-					if cv == truth {
-						ways = append(ways, way{blk: blk.Preds[i]})
-					}
-					continue
-				}
-				ways = append(ways, way{blk: blk.Preds[i], cond: e, truth: truth})
-			}
-			continue
-		}
-		ways = append(ways, way{blk: blk, cond: rv, truth: truth})
-	}
+	pure := s.ctxForIn(call, outer) != nil
+	ways := gdAdmittedWays(ctx.callee, cons)
 	if len(ways) != 1 {
 		return
 	}
 	w := ways[0]
-	for _, f := range gdDomFacts(w.blk) {
-		s.addCondIn(f.cond, f.truth, ctx)
+	addC := func(cond ssa.Value, truth bool) {
+		if !pure && !gdFrameStableCond(cond) {
+			return
+		}
+		if s.addCondIn(cond, truth, ctx) || !pure || depth >= 2 {
+			return
+		}
+		nf := gdNormFact(cond, truth, nil)
+		if bt, ok := nf.cond.Type().Underlying().(*types.Basic); !ok || bt.Kind() != types.Bool {
+			return
+		}
+		if c2, k2 := gdCallResult(nf.cond); c2 != nil {
+			gdAddCallFactsIn(s, c2, []gdResCons{{k: k2, truth: nf.truth}}, ctx, depth+1)
+		}
 	}
-	if w.cond != nil {
-		s.addCondIn(w.cond, w.truth, ctx)
+	for _, f := range w.facts() {
+		addC(f.cond, f.truth)
 	}
+	for _, c := range cons {
+		if c.isNil {
+			continue
+		}
+		if v := w.result(c.k); v != nil {
+			if _, isConst := gdBoolConst(v); !isConst {
+				addC(v, c.truth)
+			}
+		}
+	}
+	// the other (integer) results of the call are the values returned that way
+	tie := func(res ssa.Value, k int) {
+		v := w.result(k)
+		if v == nil || !gdIsInteger(res.Type()) || !(pure || gdFrameStable(v, 0)) {
+			return
+		}
+		l := s.linIn(res, outer, 0).add(s.linIn(v, ctx, 0), -1)
+		if len(l.t) == 0 && l.k == 0 {
+			return
+		}
+		s.addLE(l)
+		s.addLE(l.neg())
+	}
+	if _, isTuple := call.Type().(*types.Tuple); isTuple {
+		if refs := call.Referrers(); refs != nil {
+			for _, r := range *refs {
+				if ex, ok := r.(*ssa.Extract); ok {
+					tie(ex, ex.Index)
+				}
+			}
+		}
+	} else {
+		tie(call, 0)
+	}
+}
+
+// gdCtxFact: a branch decision of frame ctx.
+type gdCtxFact struct {
+	gdFact
+	ctx *gdCallCtx
+}
+
+func gdInFrame(fs []gdFact, ctx *gdCallCtx, pre []gdCtxFact) []gdCtxFact {
+	out := append([]gdCtxFact{}, pre...)
+	for _, f := range fs {
+		out = append(out, gdCtxFact{f, ctx})
+	}
+	return out
+}
+
+// gdAlt: one of the alternatives a value can come from: the value v of frame
+// ctx, taken only when the branch decisions `facts` hold.
+type gdAlt struct {
+	v     ssa.Value
+	ctx   *gdCallCtx
+	facts []gdCtxFact
+}
+
+func gdPhiAlts(phi *ssa.Phi, ctx *gdCallCtx, pre []gdCtxFact) []gdAlt {
+	var out []gdAlt
+	for i, e := range phi.Edges {
+		if i < len(phi.Block().Preds) {
+			out = append(out, gdAlt{v: e, ctx: ctx, facts: gdInFrame(gdEdgeFacts(phi.Block().Preds[i], phi.Block()), ctx, pre)})
+		}
+	}
+	return out
+}
+
+// resultAlts: the alternatives of the atom a as seen from block `use`:
+//   - a phi: its edges (each under the decisions of its incoming edge);
+//   - result k of a call of a pure module function: the values returned on the
+//     ways of returning that are compatible with what the branches dominating
+//     `use` saw of the call's results, evaluated in the callee frame; a returned
+//     phi contributes its edges, a returned result of a further pure call that
+//     call's alternatives (two levels).
+//
+// nil when a is neither.
+func (s *gdSolver) resultAlts(a gdAtom, use *ssa.BasicBlock) []gdAlt {
+	if a.isLen {
+		return nil
+	}
+	if phi, ok := a.v.(*ssa.Phi); ok {
+		return gdPhiAlts(phi, a.ctx, nil)
+	}
+	call, k := gdCallResult(a.v)
+	if call == nil {
+		return nil
+	}
+	var cons []gdResCons
+	if a.ctx == nil {
+		_, m := gdResultConstraints(use)
+		cons = m[call]
+	}
+	return s.callAlts(call, k, a.ctx, cons, nil, 0)
+}
+
+func (s *gdSolver) callAlts(call *ssa.Call, k int, outer *gdCallCtx, cons []gdResCons, pre []gdCtxFact, depth int) []gdAlt {
+	cc := s.ctxForIn(call, outer)
+	if cc == nil {
+		return nil
+	}
+	type altKey struct {
+		v   ssa.Value
+		blk *ssa.BasicBlock
+		ctx *gdCallCtx
+	}
+	var out []gdAlt
+	seen := map[altKey]int{}
+	add := func(al gdAlt, blk *ssa.BasicBlock) {
+		key := altKey{al.v, blk, al.ctx}
+		if i, dup := seen[key]; dup {
+			// the same value reached in two ways: only the decisions common to both hold
+			var common []gdCtxFact
+			for _, f := range out[i].facts {
+				for _, g := range al.facts {
+					if f.cond == g.cond && f.truth == g.truth && f.ctx == g.ctx {
+						common = append(common, f)
+						break
+					}
+				}
+			}
+			out[i].facts = common
+			return
+		}
+		seen[key] = len(out)
+		out = append(out, al)
+	}
+	for _, w := range gdAdmittedWays(cc.callee, cons) {
+		v := w.result(k)
+		if v == nil {
+			return nil
+		}
+		if phi, ok := v.(*ssa.Phi); ok && phi.Parent() == cc.callee {
+			for i, al := range gdPhiAlts(phi, cc, pre) {
+				add(al, phi.Block().Preds[i])
+			}
+			continue
+		}
+		wf := gdInFrame(w.facts(), cc, pre)
+		if c2, k2 := gdCallResult(v); c2 != nil && depth < 2 {
+			if nested := s.callAlts(c2, k2, cc, nil, wf, depth+1); nested != nil {
+				for _, al := range nested {
+					add(al, c2.Block())
+				}
+				continue
+			}
+		}
+		add(gdAlt{v: v, ctx: cc, facts: wf}, w.blk)
+	}
+	return out
 }
 
 // ---------------------------------------------------------------------------
@@ -270,18 +613,18 @@ func (env *gdTrapEnv) capacityStore(fn *ssa.Function, st *ssa.Store, fa *ssa.Fie
 		gName += g.Name()
 	}
 	what := fmt.Sprintf("%s bound: %s < %s = len(%s)", gdShort(env.nm.exprAt(st.Pos()), 50), p.Name(), gName, m.Name())
-	// a value of P read after the store, with nothing in between
-	var reload func(v ssa.Value) bool
-	reload = func(v ssa.Value) bool {
-		pp := gdPathOf(v)
+	eq := &gdEq{mod: env.mod}
+	// P / capacity among the atoms of the facts of one branch edge: a read of the
+	// field P (in the function itself, or in the frame of a pure helper the branch
+	// calls — `if self.memoryExceeded() {…}`), and a read of the capacity path.
+	isReload := func(pp gdPath) bool {
 		if len(pp.steps) < 2 {
 			return false
 		}
 		last := pp.steps[len(pp.steps)-1]
 		return last.kind == gdField && last.field == p
 	}
-	isCap := func(v ssa.Value) bool {
-		pp := gdPathOf(v)
+	isCapPath := func(pp gdPath) bool {
 		var chain []*types.Var
 		for _, sp := range pp.steps {
 			if sp.kind == gdField {
@@ -299,63 +642,107 @@ func (env *gdTrapEnv) capacityStore(fn *ssa.Function, st *ssa.Store, fa *ssa.Fie
 		}
 		return true
 	}
-	eq := &gdEq{mod: env.mod}
+	after := func(in ssa.Instruction) bool { // in executes after the store, on every path to it
+		if in.Block() == st.Block() {
+			return gdIndexIn(in.Block(), in) > gdIndexIn(st.Block(), st)
+		}
+		return st.Block().Dominates(in.Block())
+	}
 	// candidate guards: Ifs dominated by the store comparing P with the capacity
 	for _, b := range fn.Blocks {
 		if !st.Block().Dominates(b) || len(b.Instrs) == 0 {
 			continue
 		}
 		iff, ok := b.Instrs[len(b.Instrs)-1].(*ssa.If)
-		if !ok {
-			continue
-		}
-		cmp, ok := iff.Cond.(*ssa.BinOp)
-		if !ok {
-			continue
-		}
-		var pv, gv ssa.Value
-		switch {
-		case reload(cmp.X) && isCap(cmp.Y):
-			pv, gv = cmp.X, cmp.Y
-		case reload(cmp.Y) && isCap(cmp.X):
-			pv, gv = cmp.Y, cmp.X
-		default:
+		if !ok || len(b.Succs) != 2 {
 			continue
 		}
 		if b == st.Block() && gdIndexIn(b, iff) < gdIndexIn(b, st) {
 			continue
 		}
-		// no further write of P between the store and the test
-		pl, _ := gdStrip(pv).(*ssa.UnOp)
-		if pl == nil {
-			continue
-		}
-		clob := false
-		rd := gdStep{kind: gdDeref, addr: pl.X, isFA: true, at: pl}
-		for _, in := range gdRegion(st, pl) {
-			if eq.clobbers(in, rd) {
-				clob = true
+		// the facts of the two edges
+		var sol [2]*gdSolver
+		var pAt, gAt [2]int
+		how := ""
+		isTest := false
+		for i := 0; i < 2; i++ {
+			s := newGdSolver(eq)
+			nf := gdNormFact(iff.Cond, i == 0, iff)
+			if call, k := gdCallResult(nf.cond); call != nil {
+				if !after(call) {
+					continue
+				}
+				gdAddCallFacts(s, call, []gdResCons{{k: k, truth: nf.truth}})
+				if cal := call.Call.StaticCallee(); cal != nil {
+					how = cal.Name() + "(): "
+				}
+			} else {
+				s.addCond(nf.cond, nf.truth)
+			}
+			sol[i], pAt[i], gAt[i] = s, -1, -1
+			for ai, a := range s.atoms {
+				if a.isLen {
+					continue
+				}
+				pp := gdPathIn(a.v, a.ctx)
+				switch {
+				case isReload(pp) && pAt[i] < 0:
+					// no further write of P between the store and this read
+					pl, _ := gdStrip(a.v).(*ssa.UnOp)
+					if pl == nil || pl.Op != token.MUL {
+						continue
+					}
+					var readAt ssa.Instruction = pl
+					if a.ctx != nil {
+						readAt = a.ctx.call
+					}
+					if !after(readAt) {
+						continue
+					}
+					clob := false
+					rd := gdStep{kind: gdDeref, addr: pl.X, isFA: true, at: readAt}
+					for _, in := range gdRegion(st, readAt) {
+						if eq.clobbers(in, rd) {
+							clob = true
+						}
+					}
+					if !clob {
+						pAt[i] = ai
+					}
+				case isCapPath(pp) && gAt[i] < 0:
+					gAt[i] = ai
+				}
+			}
+			if pAt[i] >= 0 && gAt[i] >= 0 {
+				isTest = true
 			}
 		}
-		if clob {
+		if !isTest {
 			continue
 		}
 		// which edge establishes P < G ?
-		for i, succ := range b.Succs {
-			s := newGdSolver(eq)
-			s.addCond(iff.Cond, i == 0)
-			goal := s.lin(pv).add(s.lin(gv), -1).plus(1) // P - G + 1 <= 0
+		for i := 0; i < 2; i++ {
+			s := sol[i]
+			if s == nil || pAt[i] < 0 || gAt[i] < 0 {
+				continue
+			}
+			pl := gdLin{t: map[int]int64{pAt[i]: 1}}
+			gl := gdLin{t: map[int]int64{gAt[i]: 1}}
+			goal := pl.add(gl, -1).plus(1) // P - G + 1 <= 0
 			if s.proveLE(goal) == gdProved {
 				// the other edge must not fall through to the same continuation without stopping
 				other := b.Succs[1-i]
 				if gdEndsInReturnOrPanic(other) {
-					env.add(fn, st.Pos(), what, Discharged, fmt.Sprintf("after the write the branch at %s continues only with %s; the other edge returns", env.c.Pos(iff.Cond.Pos()), s.factsString()))
+					env.add(fn, st.Pos(), what, Discharged, fmt.Sprintf("after the write the branch at %s continues only with %s%s; the other edge returns", env.c.Pos(iff.Cond.Pos()), how, s.factsString()))
 					return
 				}
-				_ = succ
 			}
 		}
-		env.add(fn, st.Pos(), what, Violated, fmt.Sprintf("the limit test at %s (%s %s %s) does not establish %s < %s on its continuing edge: %s[%s] can be indexed at len(%s)", env.c.Pos(iff.Cond.Pos()), p.Name(), cmp.Op, gName, p.Name(), gName, m.Name(), p.Name(), m.Name()))
+		op := "test"
+		if cmp, ok := iff.Cond.(*ssa.BinOp); ok {
+			op = cmp.Op.String()
+		}
+		env.add(fn, st.Pos(), what, Violated, fmt.Sprintf("the limit test at %s (%s%s %s %s) does not establish %s < %s on its continuing edge: %s[%s] can be indexed at len(%s)", env.c.Pos(iff.Cond.Pos()), how, p.Name(), op, gName, p.Name(), gName, m.Name(), p.Name(), m.Name()))
 		return
 	}
 	env.add(fn, st.Pos(), what, Violated, fmt.Sprintf("%s is written but no following test against %s (= len(%s)) exists in this function", p.Name(), gName, m.Name()))
